@@ -69,6 +69,9 @@ func fileSets() map[string][]fileSpec {
 		"license-after-64k":  {{"NOTES", strings.Repeat("some unrelated line of notes that fills the file\n", 1330) + mit + "\n" + strings.Repeat("more unrelated lines behind the license text\n", 1600)}},
 		"latin1":          {{"LICENSE", "Copyright \xa9 2020 Foo GmbH, M\xfcnchen\n\n" + mit + "\nGr\xfc\xdfe\n"}},
 		"unlicensed":      {{"README", "just words, nothing else\nsecond line\n"}},
+		// run with -ignore_paths_re '.*/AUTHORS' (a FILE pattern): only that file is left out, not what
+		// follows it in its directory
+		"ignore-authors": {{"proj/AUTHORS", "Copyright 2019 A. Uthor\n" + bsd}, {"proj/LICENSE", mit}, {"proj/NOTES.txt", "plain\n"}, {"proj/third_party/lib/COPYING", bsd}, {"proj/zeta/AUTHORS", "nobody\n"}, {"proj/zeta/LICENSE", mit}},
 		"nested":          {{"a/b/LICENSE", mit}, {"a/c/NOTES", "plain text\n"}, {"a/b/d/COPYING", bsd}},
 		"no-trailing-nl":  {{"LICENSE", strings.TrimRight(mit, "\n")}},
 		"crlf":            {{"LICENSE", strings.ReplaceAll("intro line\n"+mit, "\n", "\r\n")}},
@@ -140,10 +143,10 @@ func c19CLI(c *vrep.Ctx) {
 	}
 	sort.Strings(names)
 	if !c.Thorough() {
-		names = []string{"licensed", "unlicensed", "nested", "crlf", "long-line-first", "header-only", "copyright-only", "no-trailing-nl", "identical-twins", "crowd", "latin1", "big-no-trailing-nl", "license-after-64k"}
+		names = []string{"licensed", "unlicensed", "nested", "crlf", "long-line-first", "header-only", "copyright-only", "no-trailing-nl", "identical-twins", "crowd", "latin1", "big-no-trailing-nl", "license-after-64k", "ignore-authors"}
 	}
 	taskMenu := []string{"1", "2", "16", "default"}
-	c.R.Rule = fmt.Sprintf("the real identify_license binary built from the current tree, over %d file sets (licensed, unlicensed, nested directories, no trailing newline, CRLF, a 70 000-character line, empty file, header-only, copyright-only, two licenses in one file, many files, 1100 files) x {-headers} x {plain, -json -include_text} x -tasks %v: stdout lines (as a multiset), JSON Text (= lines StartLine..EndLine of the file) and exit status compared with in-process DefaultClassifier().Match on the file bytes; quick tier samples the flag combinations round-robin, thorough runs all; non-trivial = runs that reported at least one line", len(names), taskMenu)
+	c.R.Rule = fmt.Sprintf("the real identify_license binary built from the current tree, over %d file sets (licensed, unlicensed, nested directories, no trailing newline, CRLF, a 70 000-character line, empty file, header-only, copyright-only, two licenses in one file, many files, 1100 files, a tree run with -ignore_paths_re for one file name) x {-headers} x {plain, -json -include_text} x -tasks %v: stdout lines (as a multiset), JSON Text (= lines StartLine..EndLine of the file) and exit status compared with in-process DefaultClassifier().Match on the file bytes; quick tier samples the flag combinations round-robin, thorough runs all; non-trivial = runs that reported at least one line", len(names), taskMenu)
 	type combo struct {
 		headers, json bool
 		tasks         string
@@ -174,10 +177,17 @@ func c19CLI(c *vrep.Ctx) {
 		var want []string
 		wantText := map[string][]string{} // path -> expected Text per classification (in Match order)
 		bodies := map[string]string{}
+		ignoreRe := ""
+		if strings.HasPrefix(names[si], "ignore-authors") {
+			ignoreRe = ".*/AUTHORS"
+		}
 		for _, f := range set {
 			p := filepath.Join(root, "tree", f.rel)
 			os.MkdirAll(filepath.Dir(p), 0o755)
 			os.WriteFile(p, []byte(f.body), 0o644)
+			if ignoreRe != "" && strings.HasSuffix(p, "/AUTHORS") {
+				continue // left out by the pattern: nothing is expected for it
+			}
 			lines, ms := expectedLines(cl, p, []byte(f.body), cb.headers)
 			want = append(want, lines...)
 			bodies[p] = f.body
@@ -196,6 +206,9 @@ func c19CLI(c *vrep.Ctx) {
 		jsonPath := filepath.Join(root, "out.json")
 		if cb.json {
 			args = append(args, "-json", jsonPath, "-include_text")
+		}
+		if ignoreRe != "" {
+			args = append(args, "-ignore_paths_re", ignoreRe)
 		}
 		args = append(args, filepath.Join(root, "tree"))
 		cmd := exec.Command(bin, args...)
